@@ -1509,6 +1509,7 @@ func TestVerifWireReplay(t *testing.T) {
 	}
 	sigs := map[string]int{}
 	var ran, frames, skipped, skippedM1, held, samples int
+	stopped := false
 	reacts := map[string]int{}
 	var maxDelta, maxDeltaM1 uint64
 	for _, idx := range order {
@@ -1577,6 +1578,11 @@ func TestVerifWireReplay(t *testing.T) {
 		if len(sigs) >= maxSigs*8 {
 			break
 		}
+		if obs.Probe != "ok" {
+			// the node no longer answers new connections: nothing after this connection can be judged
+			stopped = true
+			break
+		}
 	}
 	n.close()
 	var keys []string
@@ -1586,7 +1592,7 @@ func TestVerifWireReplay(t *testing.T) {
 	sort.Strings(keys)
 	vtrace.Done("TestVerifWireReplay", map[string]interface{}{"behaviours": ran, "frames_judged": frames, "held": held,
 		"skipped_crash_class": skipped, "skipped_maxm1_budget": skippedM1, "reactions": reacts, "signatures": sigs,
-		"max_alloc_delta": maxDelta, "max_alloc_delta_maxm1": maxDeltaM1})
+		"max_alloc_delta": maxDelta, "max_alloc_delta_maxm1": maxDeltaM1, "stopped_node_unreachable": stopped})
 	if len(sigs) > 0 {
 		t.Errorf("mismatches: %v", keys)
 	}
